@@ -890,6 +890,7 @@ func (fr *Frame) unop(b *ssa.BasicBlock, x *ssa.UnOp, st *State) {
 					}
 				}
 				fe.eng.globalVals[n] = g
+				fe.sentinelSeen(n, g)
 				fr.vals[x] = Term{n, k, x.Type()}
 				return
 			}
